@@ -814,6 +814,66 @@ def _through_new_instance(flow, fa: FA, e, at):
     return v if v is not None else e
 
 
+def _held_by_decorator(ck, mod, fi, holders, mutex_wrappers) -> bool:
+    """Is `fi` (whose second parameter is the invocation) decorated by a module-level decorator whose wrapper calls the
+    decorated function only while holding the per-call mutex of the invocation it passes on -- `with
+    _mutex_for_invocation(inv): return fn(ctx, inv, ...)`, the mutex taken by with-block / acquire-finally-release / ExitStack /
+    a mutex-holding context manager, the arguments named or passed on as `*args`?"""
+    if len(fi.params) < 2:
+        return False
+    for d in fi.node.decorator_list:
+        dfi = mod.functions.get(d.id) if isinstance(d, ast.Name) else None
+        if dfi is None or len(dfi.params) != 1:
+            continue
+        top = A.sig_stmts(dfi.node.body)
+        inner = [n for n in top if isinstance(n, ast.FunctionDef)]
+        rets = [n for n in top if isinstance(n, ast.Return)]
+        if len(inner) != 1 or len(rets) != 1 or len(top) != 2 or A.norm(rets[0].value) != inner[0].name:
+            continue
+        wfi = dfi.nested.get(inner[0].name)
+        if wfi is None:
+            continue
+        w = FA(ck, wfi)
+        calls = [c for c in w.calls() if isinstance(c.func, ast.Name) and c.func.id == dfi.params[0]]
+        # the decorated function is not handed on in any other way
+        mentions = [n for n in A.walk_body(wfi.node) if isinstance(n, ast.Name) and n.id == dfi.params[0]]
+        if not calls or len(mentions) != len(calls):
+            continue
+        va = wfi.node.args.vararg.arg if wfi.node.args.vararg else None
+        inv_texts = set()
+        for c in calls:
+            kw = A.kwarg(c, fi.params[1])
+            if kw is not None and isinstance(kw, ast.Name) and kw.id in wfi.params:
+                inv_texts.add(kw.id)
+            elif len(c.args) >= 2 and not any(isinstance(a, ast.Starred) for a in c.args[:2]) and isinstance(c.args[1], ast.Name) and c.args[1].id in wfi.params:
+                inv_texts.add(c.args[1].id)
+            elif va and c.args and isinstance(c.args[0], ast.Starred) and isinstance(c.args[0].value, ast.Name) and c.args[0].value.id == va:
+                inv_texts.add("%s[1]" % va)
+            else:
+                inv_texts.add(None)
+        if len(inv_texts) != 1 or None in inv_texts:
+            continue
+        inv = next(iter(inv_texts))
+
+        def holds(e, w=w, inv=inv):
+            if isinstance(e, ast.Name) and w.nodes(e):
+                x0 = safe_expand(w, e)
+                if not isinstance(x0, ast.Name):
+                    return holds(x0)
+            if isinstance(e, ast.Call) and A.call_attr(e) in holders and len(e.args) == 1 and not e.keywords and _xs(w, e.args[0], e) == inv:
+                return True
+            if isinstance(e, ast.Call) and A.call_attr(e) in mutex_wrappers and len(e.args) == 1:
+                return holds(e.args[0])
+            return False
+
+        lr = LockRegions(ck, wfi, None, is_lock=holds)
+        # nothing rebinds the wrapper's parameters between taking the mutex and the call
+        rebinds = [n for n in A.walk_body(wfi.node) if isinstance(n, ast.Name) and isinstance(n.ctx, (ast.Store, ast.Del)) and n.id in wfi.params]
+        if len(lr.sections()) == 1 and not lr.leaks() and all(lr.held(c) for c in calls) and not rebinds:
+            return True
+    return False
+
+
 def mutex_table_names(ck, mod):
     """(table, lock) by role when _mutex_for_invocation itself no longer exists: the module-level dict whose
     values are locks (a defaultdict of RLock, or a dict that some function stores RLock() into) and the
@@ -993,12 +1053,18 @@ def check(ck):
     # where the per-call mutex is held, on the CFG: a with-block, `m.acquire()` ... `finally: m.release()`, an ExitStack that
     # entered it, or a lock-holding context manager -- one critical section, given back on every way out
     section = LockRegions(ck, rl.fi, None, is_lock=holds_own_mutex)
-    if len(section.sections()) != 1 or section.leaks():
+    held = section.held
+    whole = not section.sections() and not section.acquires and _held_by_decorator(ck, mod, rl.fi, holders, mutex_wrappers)
+    if whole:
+        # a decorator of the function takes the per-call mutex of the invocation it is called with and calls the function
+        # while holding it: every statement of the function runs inside the critical section
+        held = lambda node: True
+    if not whole and (len(section.sections()) != 1 or section.leaks()):
         ck.ob(R2, rl.key(None, "critical-section"), False, "memento_run_local does not hold the per-call mutex of its own invocation", rl.where())
     else:
         # the storage backend is the third parameter (named directly or through a local / a field of a new parameter object)
         backend = rl.fi.params[2] if len(rl.fi.params) > 2 else "storage_backend"
-        flow = SectionFlow(ck, rl, section.held)
+        flow = SectionFlow(ck, rl, held)
         inside = flow.in_section()
 
         def where_of(f, c):
@@ -1019,7 +1085,7 @@ def check(ck):
             if name == "get_memento":
                 cs += [(f, c) for (f, c) in flow.calls_named(("get_mementos",), recv) if single_lookup(c)]
             sites[name] = cs
-            out = [(f, c) for (f, c) in cs if not (section.held(c) if f is rl.fi else inside[f.qual])]
+            out = [(f, c) for (f, c) in cs if not (held(c) if f is rl.fi else inside[f.qual])]
             ok = bool(cs) and not out
             ck.ob(R2, rl.key(None, "in-section-" + name), ok, "%s happens inside the per-call critical section" % name if ok else
                   ("%s is not called at all" % name if not cs else
@@ -1094,6 +1160,10 @@ def check(ck):
                 any(isinstance(t, ast.Attribute) and t.attr == "call_stack" and tl and _xs(fa, t.value, s2) == tl[0] for t in s2.targets)
 
         ok = False
+        if fi.qual == "call_stack.CallStack.get" and isinstance(st, ast.Expr) and isinstance(st.value, ast.Call) and isinstance(st.value.func, ast.Name) \
+                and st.value.func.id == "setattr" and len(st.value.args) == 3 and st.value.args[2] is c and tl \
+                and _xs(fa, st.value.args[0], st) == tl[0] and A.const_str(st.value.args[1]) == "call_stack":
+            ok = True  # setattr(<thread-local>, "call_stack", CallStack())
         if fi.qual == "call_stack.CallStack.get" and isinstance(st, ast.Assign) and st.value is c:
             if tl_store(st, lambda v: v is c):
                 # the new stack is bound straight to an attribute of the thread-local object
